@@ -396,8 +396,8 @@ def k_dslash(path):
     return any(path[i] == 47 and path[i + 1] == 47 for i in range(len(path) - 1))
 
 
-def classify(item, impl, model):
-    case = item["case"]
+def known_class_of(case):
+    """the known-finding class (a purely syntactic predicate on base, routes, path)"""
     base, routes, path = case[1], case[2], case[3]
     if k_boundary(base, routes, path):
         return "F-C14-a"
@@ -410,10 +410,19 @@ def classify(item, impl, model):
     return None
 
 
+def classify(item, impl, model):
+    """a failing case belongs to a known finding only if the implementation still does
+    exactly what the faithful model (= the recorded behaviour) does on it; a failure with a
+    different observation is a new violation even inside a known class"""
+    if impl != model:
+        return None
+    return known_class_of(item["case"])
+
+
 def _utf8(v):
     try:
         bytes(v).decode("utf-8")
-        return all(isinstance(x, int) and 0 <= x < 256 for x in v)
+        return all(isinstance(x, int) and 32 <= x < 256 for x in v)
     except Exception:
         return False
 
@@ -457,6 +466,14 @@ def valid_case(item):
             real = [x for x in segs if x[0] != 4]
             if any(x[0] == 3 for x in real[:-1]):
                 return False
+        # while shrinking: a failure outside the known classes must not be "minimised" into
+        # a known-finding case, and a new failure inside a known class (implementation and
+        # model differ there) is reported as generated: shrinking by the oracle alone would
+        # drift to the recorded behaviour of that class
+        if "known" in item:
+            if item["known"] is None:
+                return known_class_of(c) is None
+            return C.case_hash(c) == item.get("orig")
         return True
     except Exception:
         return False
@@ -657,6 +674,18 @@ FIXED = [
 
 
 def generate(rng, tier):
+    """cases outside the known classes first, so that the first reported failure (the one
+    the driver shrinks and writes a replay for) is one outside them whenever there is one"""
+    items = list(_generate(rng, tier))
+    for it in items:
+        it["known"] = known_class_of(it["case"])
+        if it["known"] is not None:
+            it["orig"] = C.case_hash(it["case"])
+    items.sort(key=lambda it: it["known"] is not None)
+    return items
+
+
+def _generate(rng, tier):
     quick = tier == "quick"
     plen = 6 if quick else 7
     paths = [C.norm(p) for p in all_paths(plen)]
